@@ -1471,6 +1471,10 @@ func call(n *node) {
 		// Init variadic argument vector
 		if variadic >= 0 {
 			vararg = nf.data[numRet+variadic]
+			if nvar := len(values) - variadic; nvar > 0 && !hasVariadicArgs {
+				// The capacity of the slice is the number of variadic arguments.
+				vararg.Set(reflect.MakeSlice(vararg.Type(), 0, nvar))
+			}
 		}
 
 		// Copy input parameters from caller
